@@ -160,6 +160,31 @@ theorem C25_dispatcher_majority (arbs : List Arb) (votes : List Vote)
     obtain ⟨k, hk, rfl⟩ := List.mem_map.1 hs
     exact isNormalArb_iff.1 (hv k hk).1
 
+/-- Through the message handlers only votes naming the processing proposal reach the dispatcher:
+    what it collects is what `ProcessVote` collects from those votes alone … -/
+theorem C25_handler_filters (arbs : List Arb) : ∀ (votes : List Vote) (acc : List (Nat × Bool)),
+    handlerFinal arbs acc votes = dispFinal arbs acc (votes.filter (·.hashOk)) := by
+  intro votes
+  induction votes with
+  | nil => intro acc; rfl
+  | cons v vs ih =>
+    intro acc
+    cases hv : v.hashOk
+    · simp [handlerFinal, handlerStep, hv, ih]
+    · simp [handlerFinal, handlerStep, dispFinal, hv, ih]
+
+/-- … so a majority seen by a node that receives its votes through the handlers is a quorum of
+    more than 2n/3 distinct normal arbiters **for the processing proposal**, whatever other votes
+    (for other proposals, by the same signers) arrived in between. -/
+theorem C25_handler_majority (arbs : List Arb) (votes : List Vote)
+    (hm : hasMajority arbs.length (handlerFinal arbs [] votes).length = true) :
+    ((handlerFinal arbs [] votes).map (·.1)).Nodup ∧
+    2 * arbs.length / 3 < ((handlerFinal arbs [] votes).map (·.1)).length ∧
+    ∀ s ∈ (handlerFinal arbs [] votes).map (·.1), ∃ a ∈ arbs, a.normal = true ∧ a.key = s := by
+  rw [C25_handler_filters] at hm ⊢
+  exact C25_dispatcher_majority arbs (votes.filter (·.hashOk))
+    (fun v hv => (List.mem_filter.1 hv).2) hm
+
 /-- `CleanProposals` (view change or finished height) drops everything collected before it: what
     the dispatcher holds afterwards is determined by the votes received since, so
     `C25_dispatcher_collects_valid` / `C25_dispatcher_majority` apply to the votes of the current
